@@ -4,6 +4,18 @@ import os
 import sys
 
 KEYS = ("foo", "_bar", "name")
+
+
+def _fn():
+    """a callable attribute value"""
+
+
+def pyval(v):
+    return _fn if v == "fn" else v
+
+
+def token(v):
+    return "fn" if v is _fn else (v if isinstance(v, str) else "Other:" + repr(v))
 BOOK = ("_NodeMixin__children", "_NodeMixin__parent", "target")
 
 
@@ -17,16 +29,23 @@ def build(pre, plaincls, linkcls):
     # ordinary nodes first, then links whose target exists
     for lbl in alive:
         if pre["tgt"][lbl] == "Nil":
-            own = pre["own"][lbl]
-            if plaincls is N.HNode:
-                o = plaincls(own.get("name", lbl))
+            own = dict(pre["own"][lbl])
+            ro = own.pop("_bar", None) == "ro" if own.get("_bar") == "ro" else False
+            if ro:
+                plaincls_here = N.HNodeRO if plaincls is N.HNode else N.HAnyRO
             else:
-                o = plaincls(name=own["name"]) if "name" in own else plaincls()
+                plaincls_here = plaincls
+            plaincls, saved_cls = plaincls_here, plaincls
+            if plaincls in (N.HNode, N.HNodeRO):
+                o = plaincls(pyval(own.get("name", lbl)))
+            else:
+                o = plaincls(name=pyval(own["name"])) if "name" in own else plaincls()
             for k, v in own.items():
                 if k != "name":
-                    setattr(o, k, v)
+                    setattr(o, k, pyval(v))
             N.register(o, lbl)
             done.add(lbl)
+            plaincls = saved_cls
     while len(done) < len(alive):
         progressed = False
         for lbl in alive:
@@ -54,11 +73,11 @@ def project():
         for k in KEYS:
             try:
                 v = getattr(o, k)
-                r[k] = v if isinstance(v, str) else "Other:" + repr(v)
+                r[k] = token(v)
             except AttributeError:
                 r[k] = "AttributeError"
         reads[lbl] = r
-        own[lbl] = {k: v for k, v in o.__dict__.items() if k not in BOOK}
+        own[lbl] = {k: token(v) for k, v in o.__dict__.items() if k not in BOOK}
     return {"alive": sorted(N.Ctx.objs), "tgt": tgt, "par": par, "ch": ch, "reads": reads, "own": own}
 
 
@@ -73,7 +92,7 @@ def perform(vec, plain, link):
     objs = build(pre, plaincls, linkcls)
     built = project()
     want = {"alive": sorted(pre["alive"]), "tgt": pre["tgt"], "par": pre["par"], "ch": pre["ch"]}
-    if any(built[k] != want[k] for k in want) or any(built["own"][l] != pre["own"][l] for l in pre["own"]):
+    if any(built[k] != want[k] for k in want) or any(built["own"][l] != {k: v for k, v in pre["own"][l].items() if v != "ro"} for l in pre["own"]):
         return {"build_failed": True, "built": built}
 
     def arg(x):
@@ -85,15 +104,18 @@ def perform(vec, plain, link):
             cls = N.HSym
             o = cls.__new__(cls)
             N.register(o, z["n"])
-            cls.__init__(o, arg(z["a1"][0]), parent=arg(z["a1"][1]), **{k: v for k, v in z["a2"]})
+            cls.__init__(o, arg(z["a1"][0]), parent=arg(z["a1"][1]), **{k: pyval(v) for k, v in z["a2"]})
         elif z["act"] == "setattr":
-            setattr(objs[z["n"]], z["a1"][0], z["a1"][1])
+            setattr(objs[z["n"]], z["a1"][0], pyval(z["a1"][1]))
         elif z["act"] == "sp":
             objs[z["n"]].parent = arg(z["a1"][0])
         elif z["act"] == "sc":
             objs[z["n"]].children = [arg(x) for x in z["a1"]]
     except Exception as e:  # noqa
-        exc = N.exc_token(e)
+        exc = "AttributeError" if isinstance(e, AttributeError) else N.exc_token(e)
+        if z["act"] == "newlink":
+            # the constructor raised: the half-made link never came to life
+            N.Ctx.objs.pop(z["n"], None)
     return {"pre": dict(built, own=None), "post": project(), "exc": exc}
 
 
@@ -127,7 +149,7 @@ def replay_chunk(lines):
                 continue
             if same(vec, obs):
                 out["same"] += 1
-                if obs["post"]["own"] != vec["z"]["own"]:
+                if obs["post"]["own"] != {l: {k: v for k, v in d.items() if v != "ro"} for l, d in vec["z"]["own"].items()}:
                     out["own_drift"] += 1
             elif len(out["attention"]) < 12:
                 out["attention"].append({"vec": vec, "plain": plain, "link": link, "obs": obs})
